@@ -489,6 +489,19 @@ def _compare_fit(case, f, outs, pos, stats):
         ds += _cmp_mat(f"Basis.inner_product (component {p})", f["B"][q], Gq, gs, 1e-9, 2e-12)
         L = np.asarray(f["Ublocks"][q], dtype=float).T
         stats["chol_residual"] = max(stats.get("chol_residual", 0.0), _amax(L @ L.T - np.asarray(f["B"][q])) / gs)
+        # contract of the captured factor, exact on the model side: block q of UᵀU (as assembled and multiplied by
+        # the code) must be the Gram matrix of the basis of component p
+        o_q = int(sum(f["sizes"][:q]))
+        s_q = f["sizes"][q]
+        blockB = [[B[o_q + a][o_q + b] for b in range(s_q)] for a in range(s_q)]
+        for a in range(s_q):
+            for b in range(s_q):
+                if abs(blockB[a][b] - Gq[a][b]) > Fraction(1, 10 ** 8) * F(gs) + Fraction(2, 10 ** 12):
+                    ds.append(f"block {q} of cholesky_matrix.T @ cholesky_matrix is not the Gram matrix of the basis of component {p}: [{a}][{b}] {float(blockB[a][b])!r} vs {float(Gq[a][b])!r}")
+                    break
+            else:
+                continue
+            break
         if okA:
             psi = _pm(outs[pos])
             pos += 1
@@ -502,9 +515,7 @@ def _compare_fit(case, f, outs, pos, stats):
                 want_t = fl([F(x) for x in case["comps"][p]["t"]])
                 if list(f["rec_t"][q]) != list(want_t):
                     ds.append(f"inverse_transform (component {p}) is not on that component's grid")
-    stats["G"] = G
-    stats["rho2"] = rho2
-    stats["means"] = means
+    stats.setdefault("Zs", []).append((list(f["order"]), list(f["sizes"]), Z))
     return ds, pos
 
 
@@ -533,6 +544,19 @@ def compare(case, impl, model):
         if len(ds) > 4:
             break
     model["stats"] = {k: v for k, v in stats.items() if k in ("eig_residual", "chol_residual")}
+    # permutation of the components conjugates the solver matrix by the block permutation (exact: the univariate
+    # decompositions of a component do not depend on its position)
+    Zs = stats.get("Zs", [])
+    if len(Zs) == 2:
+        (o0, s0, Z0), (o1, s1, Z1) = Zs
+        off0 = {p: sum(s0[:q]) for q, p in enumerate(o0)}
+        sigma = []
+        for q, p in enumerate(o1):
+            sigma += [off0[p] + a for a in range(s1[q])]
+        if len(sigma) == len(Z0) == len(Z1):
+            M = len(sigma)
+            if any(Z1[i][j] != Z0[sigma[i]][sigma[j]] for i in range(M) for j in range(M)):
+                ds.append(f"solver matrix for the order {o1} is not the block-permutation conjugate of the one for {o0} (exact model values)")
     return ds
 
 
@@ -627,6 +651,19 @@ def oracle(case, impl):
         causes = _causes(f)
         tag = f"order {f['order']}"
         K = len(f["nu"])
+        # (0) the matrix decomposed is blockdiag(basis Gram matrices) · cov(univariate scores)
+        xi = np.asarray(f["xi"], dtype=float)
+        Mtot = xi.shape[1]
+        Bd = np.zeros((Mtot, Mtot))
+        o = 0
+        for Bq in f["B"]:
+            Bq = np.asarray(Bq, dtype=float)
+            Bd[o:o + len(Bq), o:o + len(Bq)] = Bq
+            o += len(Bq)
+        want = Bd @ np.atleast_2d(np.cov(xi.T))
+        Zi = np.asarray(f["Z"], dtype=float)
+        if Zi.shape != want.shape or np.abs(Zi - want).max() > 1e-8 * max(np.abs(want).max(), 1e-300):
+            bad("solver_matrix", f"{tag}: the matrix handed to the eigen-solver is not blockdiag(Gram of the univariate bases) @ cov(univariate scores)", causes=causes)
         nu = np.asarray(f["nu"], dtype=float)
         pos_idx = [m for m in range(K) if nu[m] > 1e-10 * max(nu.max(), 1e-300)]
         # components with a (numerically) zero eigenvalue are divided by √0: outside the hypotheses, not judged
